@@ -144,11 +144,17 @@ theorem iptLine_noPanic (st : IptSt) (raw : Str) : NoPanic (iptLine st raw) := b
   · exact noPanic_ok _
   · rename_i c rest hline
     split
-    · exact noPanic_ok _
+    · split
+      · exact noPanic_diag _
+      · exact noPanic_ok _
     · split
       · split
         · exact noPanic_diag _
-        · split <;> exact noPanic_ok _
+        · split
+          · split
+            · exact noPanic_diag _
+            · exact noPanic_ok _
+          · exact noPanic_ok _
       · split
         · rename_i hc
           split
